@@ -3,7 +3,15 @@ package eng
 var rootPkg = []string{modPath}
 
 // plans lists the properties for which a check is built.
+func modeScan(id string) func(s *Session, tier string) []*FuncResult {
+	return func(s *Session, tier string) []*FuncResult { return []*FuncResult{s.ScanFieldModes(id)} }
+}
+
 var plans = map[string]*propertyPlan{
+	"C01": {ID: "C01", Level: "proof", Pkgs: rootPkg,
+		Explain: "Reply loops of QuorumCall and handleAsyncCall verified against a ghost history of received answers (seen/failed/okmsg, counters): every quorum-function call site is checked for its arguments, the reply set and the once-per-successful-reply / never-after-quorum discipline; success returns exactly the function's last value."},
+	"C02": {ID: "C02", Level: "proof", Pkgs: rootPkg, Extra: modeScan("C02"),
+		Explain: "Every return of the reply loops is classified (quorum / Incomplete / context) by postconditions over the ghost history; the progress obligation at each blocking select (an answer is still owed) covers the zero-target case; the future is written exactly once before its single close; QuorumCallError.Is is specified completely."},
 	"C19": {ID: "C19", Level: "proof", Pkgs: rootPkg,
 		Explain: "Less is proved equal to the lexicographic combination of its keys (loop invariant over a recursive spec function); each provided key's real code is inlined into four strict-weak-order lemmas; Sort/Swap/Len contracts tie sort.Sort's trusted contract to the node slice."},
 }
